@@ -225,7 +225,7 @@ pub fn generate(rng: &mut Rng, tier: Tier) -> Plan {
             let n = rng.usize_in(1, 4);
             let names = crate::rsx::gen_names(rng, n, "r_");
             let moderate = rng.chance(0.7);
-            let mut f = |r: &mut Rng| {
+            let f = |r: &mut Rng| {
                 if r.chance(0.08) {
                     // stored bytes that begin like some format's header
                     magic_double(r)
@@ -509,6 +509,28 @@ pub fn generate(rng: &mut Rng, tier: Tier) -> Plan {
                 }
             }
             insert_restarts(rng, &mut ops, false);
+            // an update that names a stored pair the other way round (refused; whatever it
+            // leaves behind is then saved), followed by a restart and an ordinary update
+            if rng.chance(0.15) && !setup.quotes.is_empty() {
+                let q = rng.pick(&setup.quotes).clone();
+                let inv = c10::Quote {
+                    lhs: q.rhs.clone(),
+                    rhs: q.lhs.clone(),
+                    num: Num::F(Fx::new(awkward(rng, 1e-5, 1e5, false))),
+                    settle: q.settle,
+                    tod: q.tod,
+                };
+                ops.push(Op::Update(vec![inv]));
+                ops.push(Op::Restart {
+                    medium: gen_medium(rng),
+                    which: 0,
+                });
+                if rng.chance(0.5) {
+                    let mut again = q.clone();
+                    again.num = again.num.with_value(awkward(rng, 1e-5, 1e5, false));
+                    ops.push(Op::Update(vec![again]));
+                }
+            }
             Plan {
                 obj: ObjSpec::Fx(setup),
                 ops,
@@ -517,6 +539,37 @@ pub fn generate(rng: &mut Rng, tier: Tier) -> Plan {
             }
         }
         _ => {
+            if rng.chance(0.03) {
+                // a spline of very high order: it cannot be evaluated in any sensible time
+                // (the recursion doubles per order), but it can be built, saved and loaded
+                let k = rng.usize_in(19, 70);
+                let extra = rng.usize_in(0, 6);
+                let mut x = awkward(rng, 0.1, 50.0, true);
+                let mut t = vec![x; k];
+                for _ in 0..extra {
+                    x += awkward(rng, 0.05, 5.0, false);
+                    t.push(x);
+                }
+                x += 1.0;
+                t.extend(std::iter::repeat(x).take(k));
+                let mut ops: Vec<Op> = Vec::new();
+                insert_restarts(rng, &mut ops, false);
+                return Plan {
+                    obj: ObjSpec::Spline {
+                        spec: SplineSpec {
+                            kind: rng.below(3) as u8,
+                            k,
+                            t: t.into_iter().map(Fx::new).collect(),
+                            preset: None,
+                            preset_share: false,
+                        },
+                        xs: vec![],
+                    },
+                    ops,
+                    probes: vec![],
+                    probes_exact: vec![],
+                };
+            }
             let mut spec = gen_spline(rng);
             if rng.chance(0.3) {
                 // a spline born with its coefficients
@@ -2273,6 +2326,7 @@ pub fn shrink(plan: &Plan) -> Vec<Plan> {
                 queries: queries.clone(),
                 query_ns: vec![],
                 sibling: false,
+                silent_detours: false,
             };
             for cand in c12::shrink(&inner) {
                 if cand.history != c12::History::Sequence(vec![]) {
